@@ -724,6 +724,35 @@ class _TT(Entry):
 
 
 
+EXTRA = {}          # entries used by one property only (not part of the generic C01 / C02 / C03 sweeps)
+
+
+class _TTF(Entry):
+    """a frozen transfer (copy_estimator=True, trainable=False: the defaults) whose source estimator goes on living: `fit` trains the
+    source, fits the transfer (which takes its snapshot), then trains the SAME source object again on other data.  What the transfer
+    answers - before and after persistence - is the snapshot's business."""
+    name = "TransferTransformer:frozen"
+    methods = ("transform",)
+    uses_weights = False
+
+    def spec(self, draw):
+        return dict(cls="TransferTransformer", params=dict(estimator=s_regressor(draw), method=draw(st.sampled_from([None, "predict"])),
+                                                           copy_estimator=True, trainable=False))
+
+    def fit(self, est, X, y, w):
+        est.estimator.fit(X, y)
+        est.fit(X, y)
+        est.estimator.fit(np.asarray(X)[::-1] * 1.5 + 0.25, y)
+        return est
+
+
+EXTRA[_TTF.name] = _TTF()
+
+
+def any_entry(name):
+    return ENTRIES[name] if name in ENTRIES else EXTRA[name]
+
+
 @register
 class _PRT(Entry):
     """target transformer: fit(None, y), transform(X, y) -> (X, codes); closest=True maps unseen labels to the nearest seen one"""
